@@ -76,6 +76,7 @@ structure Inv (s : St) : Prop where
   cntR : s.wk.itw = true → s.reads + b2n (decide (s.pc = .sleep)) = s.sleeps
   sleepNE : s.pc = .sleep → s.tasksEmpty = false
   lastWait : ∀ x, s.last = some (.wait x) → s.set.isSome = true
+  lastYield : (s.pc = .fresh → s.last = none) ∧ (s.pc = .idle → s.last = some .yield → s.wk.sleep = Limits.sleepStateWoken)
 
 theorem inv_init (d : Driver) (itw : Bool) : Inv (St.init d itw) := by
   cases d <;> constructor <;> simp [St.init, running, dropped, noReadPc, b2n]
@@ -83,7 +84,7 @@ theorem inv_init (d : Driver) (itw : Bool) : Inv (St.init d itw) := by
 macro "inv_auto" h:ident hi:ident : tactic => `(tactic| (
   step_split $h
   all_goals (obtain ⟨hs, _⟩ := $h; subst hs)
-  all_goals (obtain ⟨h1, h2, h3, h4, h5, h6, h7, h8, h9, h10, h11, h12, h13, h14, h15, h16, h17, h18, h19⟩ := $hi)
+  all_goals (obtain ⟨h1, h2, h3, h4, h5, h6, h7, h8, h9, h10, h11, h12, h13, h14, h15, h16, h17, h18, h19, h20⟩ := $hi)
   all_goals try (cases ‹Next›)
   all_goals (constructor <;> simp_all [running, dropped, noReadPc, b2n, userPc, Next.pc])
   all_goals try (first | omega | (split at * <;> omega))
@@ -249,7 +250,7 @@ def Enabled (s : St) : Label → Prop
 set_option maxHeartbeats 4000000 in
 theorem never_panic {s : St} {l : Label} {m : String} {e : List Ev} (hi : Inv s) (hm : InvM s) (he : Enabled s l)
     (h : step s l = .panic m e) : False := by
-  obtain ⟨h1, h2, h3, h4, h5, h6, h7, h8, h9, h10, h11, h12, h13, h14, h15, h16, h17, h18, h19⟩ := hi
+  obtain ⟨h1, h2, h3, h4, h5, h6, h7, h8, h9, h10, h11, h12, h13, h14, h15, h16, h17, h18, h19, h20⟩ := hi
   obtain ⟨m1, m2⟩ := hm
   have hsl : userPc s.pc = true → s.wk.sleep = 2 → s.wk.itw = true → s.wk.reading = true := by
     intro hu h2' hitw
